@@ -1,5 +1,5 @@
 """C12 — a crash at any storage step leaves a recoverable database (one clause: snapshot, rollback, relay replacement are all-or-nothing)."""
-import re, time
+import os, re, time
 import z3
 
 from vlib.common import Result
@@ -122,6 +122,20 @@ def o1(tier):
                     r.fail('O1/synchronous-off', f'{rel}: PRAGMA synchronous = {v}: committed transactions may be lost or torn on power failure')
                 if k == 'foreign_keys' and v in ('OFF', '0'):
                     r.fail('O1/foreign-keys-off', f'{rel}: PRAGMA foreign_keys = {v}')
+    # SQLite recovers an interrupted transaction from its rollback journal / WAL at the next open: the backend must never delete or truncate those files itself
+    import glob as _glob
+    for path in sorted(_glob.glob(os.path.join(S.SQLITE, 'src', '*.rs'))):
+        src = re.sub(r'//[^\n]*', '', open(path).read())
+        mt = re.search(r'#\[cfg\(test\)\]\s*(pub\s+)?mod\s+\w+\s*\{', src)
+        if mt:
+            src = src[:mt.start()]                     # the unit-test module (test-only helpers elsewhere stay in)
+        for m in re.finditer(r'(remove_file|remove_dir_all|File::create|set_len|fs::write|truncate)\s*\(', src):
+            ctx = src[max(0, m.start() - 400): m.end() + 200]
+            if re.search(r'-journal|-wal|-shm|journal|\bwal\b', ctx, re.I):
+                r.cases += 1
+                r.fail('O1/journal-file-removed', f'{os.path.basename(path)}: {m.group(1)}() is applied to SQLite\'s journal / WAL side files: after a crash inside a transaction the next open cannot roll the '
+                       'half-written pages back (torn database; snapshot and rollback are no longer all-or-nothing)')
+                break
     r.queries = sol.queries
     r.solver_s = sol.time
     r.bounds = {'crash point': 'any statement boundary (symbolic k)', 'loops': 'each statement literal stands for all its executions (a loop body inside the bracket stays inside)'}
@@ -160,6 +174,30 @@ def o2(tier):
     return ob.done(cases=len(paths))
 
 
+def o3(tier):
+    """retrying an interrupted accept converges: accept_welcome never returns Ok without having written the group as Active"""
+    from mirsym.api import Ob, Opaque, ev_is, vname
+    from mirsym import contracts as C
+    from props.C16 import group_state_of
+    ob = Ob('O3', 'MDK::accept_welcome (the retry after a crash between marking the welcome accepted and activating the group): every successful return has saved the group record in state Active, '
+                  'whatever state the stored welcome is in', pure=C.PURE_MLS)
+    f = ob.fn('mdk-core', 'welcomes::accept_welcome')
+    paths = ob.explore(f, [Opaque('self', '&MDK<Storage>'), Opaque('welcome', '&mdk_storage_traits::welcomes::types::Welcome')])
+    n_ok = 0
+    for p in paths:
+        if p.kind != 'return' or vname(p.ret) != 'Ok':
+            continue
+        n_ok += 1
+        sg = [e for e in p.trace if ev_is(e, 'save_group') and not ev_is(e, 'save_group_exporter_secret')]
+        gg = [e for e in p.trace if ev_is(e, 'get_group', 'find_group_by_mls_group_id')]
+        none_found = bool(gg) and ob.eng.prove(p, z3.And(gg[-1].ret.discriminant() == 0, gg[-1].ret.child('Ok', 0, 'Option<Group>').discriminant() == 0))[0]
+        ok = (bool(sg) and any(group_state_of(ob, p, e.args[1]) == 'Active' for e in sg)) or none_found        # (no record of the group at all: nothing to activate)
+        ob.require(ok, 'O3/accept_welcome/ok-without-activation', 'accept_welcome returns Ok without saving the group as Active: a retry after a crash that hit between the two writes leaves the group Pending for good', p)
+    ob.require(n_ok >= 1, 'O3/vacuity', 'no successful path')
+    ob.r.bounds = {'paths': 'all', 'stored welcome': 'arbitrary (any state)'}
+    return ob.done(cases=len(paths))
+
+
 def run(tier, seed, only=None):
     out = []
     if not only or 'O1' in only:
@@ -172,4 +210,7 @@ def run(tier, seed, only=None):
     if not only or 'O2' in only:
         from mirsym.api import guard
         out.append(guard(o2)(tier))
+    if not only or 'O3' in only:
+        from mirsym.api import guard
+        out.append(guard(o3)(tier))
     return out
